@@ -2,7 +2,6 @@ package streams
 
 import (
 	"net/http"
-	"os"
 	"strings"
 	"sync"
 
@@ -144,8 +143,9 @@ func crashStream(g *hx.Gen, id int) hx.Case {
 		_ = now
 		for _, s := range snaps {
 			out = append(out, s.point)
+			// (the probe world retires the image directory when it closes: it must outlive the start-up
+			// scan of the probe's size limiters)
 			out = append(out, probe(s.dir, rules, path, withOrigin, tnow)...)
-			os.RemoveAll(s.dir)
 		}
 		return out
 	})
